@@ -157,18 +157,37 @@ def run(ctx):
     bc = [b for b, t, c in rl.calls() if c == RT + "RunState::check_pc_bounds" and rl.dominates(b, fetch_b)]
     ok = False
     witness = None
+    lps_ = kit.loops(rl)
+    heads_ = set(lps_)
     for b in bc:
         nb = rl.term(b)["t"]
-        sw = kit.switch_on_discr_of_local(rl, nb)
-        if not sw or sw[0]["l"] != rl.term(b)["dest"]["l"]:
+        # what happens to each outcome of the bounds test, whatever the shape of the code that examines it: unfold the CFG from the
+        # call's continuation down to the fetch / the exits and evaluate it for Less, Equal and Greater
+        def leaf(x, _f=fetch_b):
+            if x == _f:
+                return ("FETCH",)
+            if x in heads_:
+                return ("LOOP",)
+            return None
+        try:
+            tree_ = formula.decision(rl, start=nb, leaf_of_block=leaf)
+        except formula.NotATree:
             continue
-        t = rl.term(nb)
-        tg = {v: x for v, x in t["targets"]}
-        equal_t = tg.get(0, t["otherwise"])
-        others = [x for v, x in t["targets"] if v != 0] + ([t["otherwise"]] if 0 in tg else [])
-        div = all(not (rl.reachable(x, avoid={equal_t}) & {fetch_b}) for x in others if x != equal_t)
+        outcome = {}
+        for v in ("Less", "Equal", "Greater"):
+            def sub(e, _v=v, _dl=rl.term(b)["dest"]["l"]):
+                if e[0] == "call" and e[1] == RT + "RunState::check_pc_bounds":
+                    return ("variant", _v, "core::cmp::Ordering", ())
+                if e[0] == "local" and e[1] == _dl:
+                    return ("variant", _v, "core::cmp::Ordering", ())
+                return None
+            try:
+                lab = formula.eval_decision(tree_, {"subst": sub, "prog": prog})
+            except (formula.Unknown, formula.Overflow):
+                lab = ("?",)
+            outcome[v] = lab[0] if isinstance(lab, tuple) and lab and lab[0] in ("FETCH", "LOOP", "diverge", "?") else "other"
         # no PC write between the test and the fetch
-        between = (rl.reachable(equal_t, avoid={fetch_b}) & _reaching(rl, fetch_b, avoid={nb})) | {fetch_b}
+        between = (rl.reachable(nb, avoid={fetch_b}) & _reaching(rl, fetch_b, avoid={b})) | {fetch_b}
         pcw = [w for w in eff.site_writes(rl, 1, between) if w[2][:2] == ("state", "pc") or w[2] == ("state",)]
         # a PC write in the fetch block itself is harmless when it comes after the fetch statement
         fi = _stmt_index(rl, fetch_b, fdefs[0][3])
@@ -181,7 +200,7 @@ def run(ctx):
                     [e.get("n") for e in st["p"].get("pr", []) if isinstance(e, dict) and "f" in e] == ["state", "pc"]]
             return bool(idxs) and all(i > fi for i in idxs)
         pcw = [w for w in pcw if not _after_fetch(w)]
-        if rl.dominates(equal_t, fetch_b) and div and not pcw:
+        if outcome.get("Equal") == "FETCH" and outcome.get("Less") == "diverge" and outcome.get("Greater") == "diverge" and not pcw:
             ok = True
             witness = nb
     ctx.instance(1)
@@ -255,7 +274,8 @@ def run(ctx):
         if rl.term(s)["k"] == "unreachable":
             continue
         t = rl.term(b)
-        cond = expr_str(rl.expr(t["a"], 8, stop={"named"}), 60) if t["k"] == "switch" else "-"
+        # fully expanded, so that a named temporary (`let bounds = self.state.check_pc_bounds()`) does not hide what is tested
+        cond = expr_str(rl.expr(t["a"], 12), 200) if t["k"] == "switch" else "-"
         R = rl.reachable(s)
         codes = sorted({const_int(tt["args"][0]) for bb, tt, cc in rl.calls() if bb in R and cc == "std::process::exit"})
         rets = any(rl.term(x)["k"] == "return" for x in R)
